@@ -24,7 +24,14 @@ def sh(cmd, cwd=None, env=None, timeout=7200):
 
 
 def main():
+    global WT
     only = None
+    shard = None
+    if "--wt" in sys.argv:
+        WT = sys.argv[sys.argv.index("--wt") + 1]
+    if "--shard" in sys.argv:
+        i, n = sys.argv[sys.argv.index("--shard") + 1].split("/")
+        shard = (int(i), int(n))
     if "--only" in sys.argv:
         only = set(sys.argv[sys.argv.index("--only") + 1].split(","))
     head = sh("git -C /repo rev-parse HEAD")[1].strip()
@@ -33,9 +40,11 @@ def main():
     sh(f"git reset -q --hard && git clean -fdq && git checkout -q --detach {head}", cwd=WT)
     base_failed = open("/tmp/mut/baseline_failed.txt").read() if os.path.exists("/tmp/mut/baseline_failed.txt") else None
     summary = []
-    for d in sorted(glob.glob(os.path.join(VERIF, "seeded", "*"))):
+    for k, d in enumerate(sorted(glob.glob(os.path.join(VERIF, "seeded", "*")))):
         sid = os.path.basename(d)
         if only and sid not in only:
+            continue
+        if shard and k % shard[1] != shard[0]:
             continue
         meta = json.load(open(os.path.join(d, "meta.json")))
         sh("git reset -q --hard && git clean -fdq", cwd=WT)
@@ -57,7 +66,7 @@ def main():
         checks = meta.get("caught_by") or [meta.get("property")]
         caught = []
         for c in checks:
-            env3 = dict(os.environ, VERIF_REPO=WT, VERIF_EVIDENCE_DIR="/tmp/seed_matrix_ev", VERIF_REPLAY_DIR="/tmp/seed_matrix_rp")
+            env3 = dict(os.environ, VERIF_REPO=WT, VERIF_EVIDENCE_DIR=WT + "_ev", VERIF_REPLAY_DIR=WT + "_rp")
             env3.pop("VERIF_REEXEC", None)
             rc, o = sh(f"{PY} {VERIF}/run.py {c} --tier quick", cwd=VERIF, env=env3)
             if rc == 1 and "VIOLATION" in o:
